@@ -132,13 +132,14 @@ def make_namespace(ctx):
     return ns
 
 
-MEAN_LOOP = "outer:tfftp00"     # the mean-mode (DC) loop of S, whatever its position among the loops
+MEAN_LOOP = "outer:tfftp00|nest:0"     # the mean-mode (DC) loop of S: the loop that assigns tfftp00 (fallback: the first loop)
 
 
 class MeanLoop(loops.Constructive):
     """for i in range(nz-1): tfftp[levels == i, 0, 0] = tfftp00;  tfftp00 -= S00*dz_i*(.5/Kz_i + .5/Kz_{i+1})
     invariant: tfftp00 = p000 - S00*Rsum(i);  tfftp[k,0,0] = p000 - S00*Rsum(levels[k]) for levels[k] < i."""
     props = None
+    state_names = ("tfftp00", "tfftp")
 
     def __init__(self, st):
         self.st = st  # per-run dict: inp, S00 (Cx), fixed by the harness before the call
